@@ -616,13 +616,14 @@ Fixpoint gtf_ok (bl : list (Z * Z * Z * Z)) (last_end : option Z) (g : list (Z *
    its chromosome; without --chromosome every chromosome of the file must be reported, in file order;
    with --chromosome only (and, if present in the file, all of) the requested ones. *)
 Definition lines_of {A} (cid : Z) (l : list (Z * A)) : list A := map snd (filter (fun x => fst x =? cid) l).
-Definition l1_run (only_snvs : bool) (groups : list (Z * list vrec)) (given : list Z) (out : output) : bool :=
+Definition l1_run_gen (allchk : list (Z * dstats) -> option dstats -> bool)
+           (only_snvs : bool) (groups : list (Z * list vrec)) (given : list Z) (out : output) : bool :=
   forallb (fun row =>
              let recs := lookup_recs groups (fst row) in
              l1_row only_snvs recs (snd row) (lines_of (fst row) (o_blocklist out)) &&
              gtf_ok (s_blocklist (spec_of only_snvs recs)) None (lines_of (fst row) (o_gtf out)))
           (o_rows out) &&
-  all_row_ok (o_rows out) (o_all out) &&
+  allchk (o_rows out) (o_all out) &&
   match given with
   | [] => list_eqb Z.eqb (map fst (o_rows out)) (map fst groups)
   | _ => forallb (fun row => zmem (fst row) given) (o_rows out) &&
@@ -630,6 +631,28 @@ Definition l1_run (only_snvs : bool) (groups : list (Z * list vrec)) (given : li
   end &&
   forallb (fun l => zmem (fst l) (map fst (o_rows out))) (o_blocklist out) &&
   forallb (fun l => zmem (fst l) (map fst (o_rows out))) (o_gtf out).
+Definition l1_run := l1_run_gen all_row_ok.
+
+(* consequence for the ALL row (proved from l1_run): its sum of block lengths is at most the total covered
+   span, i.e. the sum over the reported chromosomes of (max - min position over the members of the phase
+   sets with >= 2 members) *)
+Definition all_span_ok (only_snvs : bool) (groups : list (Z * list vrec)) (out : output) : bool :=
+  match o_all out with
+  | None => true
+  | Some a => d_bsum a <=? zsum (map (fun row : Z * dstats => s_span (spec_of only_snvs (lookup_recs groups (fst row))))
+                                   (o_rows out))
+  end.
+
+(* used only to name a failure class: l1_run with the three block-length fields of the ALL row left out *)
+Definition nolen (d : dstats) : dstats :=
+  mkD (d_variants d) (d_phased d) (d_unphased d) (d_singletons d) (d_blocks d) (d_vmin d) (d_vmax d)
+      (d_vsum d) 0 0 0 (d_het d) (d_hetsnv d) (d_phsnv d) None.
+Definition all_row_ok_nolen (rows : list (Z * dstats)) (all : option dstats) : bool :=
+  match all with
+  | None => true
+  | Some a => dstats_eqb (nolen a) (nolen (row_sum (map snd rows)))
+  end.
+Definition l1_run_nolen := l1_run_gen all_row_ok_nolen.
 
 (* shape of one correspondence case written by harness/props/C12.py:
    ((only_snvs, indexed), header, groups, given, result of the implementation) *)
